@@ -43,14 +43,14 @@ type apiArgs struct {
 
 var queryPool = []string{"fixme", "a b", "a&b=c", "100% sure?", "Straße+Weg", "#hash/and?question", "日本 語", "", "q=1;drop", "plus+plus"}
 
-func drawCoord(t *kit.Tape, r int) float64 {
-	switch t.Draw(3) {
-	case 0: // whole degrees
+// drawCoord draws a coordinate with 0, 6 or 7 decimals (7 is the resolution of OSM coordinates).
+func drawCoord(t *kit.Tape, r int, prec int) float64 {
+	switch prec {
+	case 0:
 		return float64(t.Draw(2*r+1) - r)
-	case 1: // six decimals
+	case 1:
 		return float64(t.Int64(int64(2*r)*1000000)-int64(r)*1000000) / 1e6
 	}
-	// seven decimals: the resolution of OSM coordinates
 	return float64(t.Int64(int64(2*r)*10000000)-int64(r)*10000000) / 1e7
 }
 
@@ -76,9 +76,12 @@ func drawArgs(t *kit.Tape, ep *endpoint) *apiArgs {
 	if t.Chance(1, 10) {
 		a.ids = append(a.ids, a.ids[0]) // a repeated id
 	}
-	a.bounds.MinLon, a.bounds.MinLat = drawCoord(t, 179), drawCoord(t, 89)
-	a.bounds.MaxLon = a.bounds.MinLon + float64(t.Draw(5000000))/1e7
-	a.bounds.MaxLat = a.bounds.MinLat + float64(t.Draw(5000000))/1e7
+	prec := t.Draw(3)
+	a.bounds.MinLon, a.bounds.MinLat = drawCoord(t, 179, prec), drawCoord(t, 89, prec)
+	unit := []float64{1, 1e6, 1e7}[prec]
+	ext := []int{1, 500000, 5000000}[prec]
+	a.bounds.MaxLon = math.Round((a.bounds.MinLon+float64(1+t.Draw(ext))/unit)*unit) / unit
+	a.bounds.MaxLat = math.Round((a.bounds.MinLat+float64(1+t.Draw(ext))/unit)*unit) / unit
 	a.q = queryPool[t.Draw(len(queryPool))]
 	if ep.feat {
 		for i, n := 0, t.Draw(3); i < n; i++ {
@@ -1005,7 +1008,6 @@ func runC20(t *testing.T, r *kit.Run) {
 	var bad interface{}
 	finish := func(cr *cellRun) {
 		o.Evals++
-		o.NonTrivial++ // every cell is a distinct (call, fault) combination with its oracle applied
 		h := kit.Mix(uint64(cr.idx) + 77)
 		for _, rq := range cr.srv.reqs {
 			h = kit.HashStr(h, rq.method+" "+rq.url)
@@ -1014,7 +1016,10 @@ func runC20(t *testing.T, r *kit.Run) {
 			h = kit.Mix(h ^ uint64(cr.lim.calls)<<8 ^ uint64(cr.lim.end-cr.lim.start))
 		}
 		o.Scheds = append(o.Scheds, h)
-		o.Pairs = append(o.Pairs, kit.Mix(wl^h))
+		if cr.cell.st != 0 || cr.cell.lim != limNone { // a fault is injected: a non-200 status and/or a limiter event
+			o.NonTrivial++
+			o.Pairs = append(o.Pairs, kit.Mix(wl^h))
+		}
 		if judgeCell(o, cr) && bad == nil {
 			d := cr.a.describe(cr.ep)
 			d["cell"], d["status"], d["limiter"], d["elements"], d["base_url"] = cr.idx, apiStatuses[cr.cell.st], limName[cr.cell.lim], countVariants[cr.cell.cv].name, cr.base
